@@ -13,6 +13,8 @@ import ReuseVerif.Lemmas.TagsClean
 import ReuseVerif.Lemmas.TagsEnd
 import ReuseVerif.Lemmas.TagsCopyright
 import ReuseVerif.Lemmas.TagsText
+import ReuseVerif.Lemmas.Window
+import ReuseVerif.Lemmas.Merge
 import ReuseVerif.Theorems.C20
 
 namespace C02
@@ -155,6 +157,31 @@ example : WFLines Generated.endRe Generated.licenseTag
   have h2 := fun tail => noEndSuffix_of_last Generated.endRe "GPL-2.0+".toList tail (by decide +kernel) (by decide +kernel)
   simp only [WFLines, hs, h1, h2, Bool.and_true, Bool.true_and]
   decide +kernel
+
+/-- **A tag line anywhere in a text.**  After any number of lines in which no `TAG[ \t]` starts
+    and before *any* continuation of the text, a tag line whose value ends in a character END
+    cannot consume and whose trail consists of listed terminators and blanks contributes its
+    value (purely syntactic hypotheses; nothing is assumed about what follows the line). -/
+theorem C02_tag_found_in_text (endRe body : Re) (hstar : starBody endRe = some body) (tag : Text) (hnl : '\n' ∉ tag)
+    (ls : List Text) (hfree : ∀ l ∈ ls, tagFreeLine tag l = true)
+    (pre blanks v after : Text) (pieces : List Text) (hp : ∀ p ∈ pieces, pieceOk body p = true)
+    (hshape : WFShape tag pre blanks v pieces.flatten ['\n'] = true)
+    (hlast : ∀ c, v.getLast? = some c → mayUse endRe c = false)
+    (hs : isStripped v = true) (hf : frameFree pre v = true) :
+    v ∈ findSpdxTagWith endRe tag (joinLines ls ++ (tagLine pre tag blanks v pieces.flatten ['\n'] ++ after)) := by
+  have hnlv : noNewline v = true := by
+    have h := hshape; unfold WFShape at h; simp only [Bool.and_eq_true] at h; exact h.1.1.2
+  have hend : endOk endRe (pieces.flatten ++ '\n' :: after) = true := by
+    rw [starBody_eq hstar]
+    exact matchEnd_complete (matches_pieces body pieces hp) rfl
+  have htext : tagLine pre tag blanks v pieces.flatten ['\n'] ++ after =
+      pre ++ tag ++ blanks ++ v ++ pieces.flatten ++ '\n' :: after := by
+    simp [tagLine, List.append_assoc]
+  unfold findSpdxTagWith
+  rw [htext]
+  exact List.mem_map.mpr ⟨(pre, v),
+    findAll_found endRe tag hnl ls pre blanks v pieces.flatten after hfree hshape hend
+      (noEndSuffix_of_last endRe v _ hnlv hlast), cleanTag_plain pre v hs hf⟩
 
 /-! ### copyright notices -/
 
@@ -307,5 +334,44 @@ theorem C02_window_ignores_rest (parses : Text → Bool) (content : Bytes) (h : 
 theorem C02_window_snippet_reads_all (parses : Text → Bool) (content : Bytes) (h : containsSnippet content = true) :
     infoOfFile parses content = infoOfDecoded parses (decodedText content) := by
   unfold infoOfFile window; simp [h]
+
+/-- **A licence tag line lying wholly inside the first 4096 bytes is found**, whatever bytes
+    follow and whether or not the file holds a snippet indicator.  The file starts with the
+    UTF-8 encoding of `head` = tag-free lines followed by the tag line (no carriage return in
+    `head`; any characters, also multi-byte ones); `more` is arbitrary (invalid UTF-8, a character
+    cut by the window, …).  Hypothesis `hign`: no `REUSE-IgnoreStart` in the decoded window. -/
+theorem C02_window_finds_inside (endRe body : Re) (hstar : starBody endRe = some body)
+    (ls : List Text) (hfree : ∀ l ∈ ls, tagFreeLine Generated.licenseTag l = true)
+    (pre blanks v : Text) (pieces : List Text) (hp : ∀ p ∈ pieces, pieceOk body p = true)
+    (hshape : WFShape Generated.licenseTag pre blanks v pieces.flatten ['\n'] = true)
+    (hlast : ∀ c, v.getLast? = some c → mayUse endRe c = false)
+    (hs : isStripped v = true) (hf : frameFree pre v = true)
+    (more : Bytes)
+    (hcr : '\r' ∉ joinLines ls ++ tagLine pre Generated.licenseTag blanks v pieces.flatten ['\n'])
+    (hlen : (encodeUtf8 (joinLines ls ++ tagLine pre Generated.licenseTag blanks v pieces.flatten ['\n'])).length ≤ 4096)
+    (hign : findSub Generated.ignoreStart (decodedText (window
+      (encodeUtf8 (joinLines ls ++ tagLine pre Generated.licenseTag blanks v pieces.flatten ['\n']) ++ more))) = none) :
+    v ∈ (extractRawWith endRe (decodedText (window
+      (encodeUtf8 (joinLines ls ++ tagLine pre Generated.licenseTag blanks v pieces.flatten ['\n']) ++ more)))).lic := by
+  obtain ⟨tailText, ht⟩ := decodedText_window_head _ more hcr hlen
+  unfold extractRawWith
+  simp only [filterIgnore_none hign, mem_dedup]
+  rw [ht, List.append_assoc]
+  exact C02_tag_found_in_text endRe body hstar Generated.licenseTag (by decide) ls hfree pre blanks v tailText pieces hp
+    hshape hlast hs hf
+
+/-- the hypotheses are satisfiable (two lines with multi-byte characters before the tag line, a
+    truncated multi-byte sequence after it) -/
+example : "MIT".toList ∈ (extractRawWith Generated.endRe (decodedText (window
+    (encodeUtf8 (joinLines ["#!/bin/sh".toList, "# é €".toList] ++
+      tagLine "# ".toList Generated.licenseTag " ".toList "MIT".toList ([" ".toList, "*/".toList] : List Text).flatten ['\n']) ++
+      [0xE2, 0x82])))).lic :=
+  C02_window_finds_inside Generated.endRe ((starBody Generated.endRe).getD .eps) rfl
+    ["#!/bin/sh".toList, "# é €".toList] (by decide +kernel) "# ".toList " ".toList "MIT".toList
+    [" ".toList, "*/".toList] (by decide +kernel) (by decide +kernel) (by decide +kernel) (by decide +kernel)
+    (by decide +kernel) [0xE2, 0x82] (by decide +kernel) (by decide +kernel) (by decide +kernel)
+
+/-- Valid UTF-8 decodes to the text it encodes (every Unicode scalar value, all four lengths). -/
+theorem C02_decode_valid_utf8 (t : Text) : decodeUtf8 (encodeUtf8 t) = t := decodeUtf8_encodeUtf8 t
 
 end C02
